@@ -421,7 +421,7 @@ func c07Jobs(tier string) []string {
 		}
 	}
 	worlds := []string{"W0+memberless-interface", "W0+union-list", "W0+interface-value", "W0+node-typed-field", "Wmin+memberless-interface", "W0+interface-entities",
-		"W0+union-single", "W0+root-list-of-lists", "W0+entity-node-typed-field", "W0+root-custom-scalar"}
+		"W0+union-single", "W0+root-list-of-lists", "W0+entity-node-typed-field", "W0+root-custom-scalar", "W0+subscription-roots"}
 	for _, w := range worlds {
 		jobs = append(jobs, "corner:"+w+"|e0p|plainK3")
 	}
